@@ -6,6 +6,7 @@
 //   H <T> <splice>             the half-close scenario: client uploads for longer than T, half-closes, origin answers later
 use super::util::*;
 use std::process::Stdio;
+use std::sync::Arc;
 use tokio::io::{AsyncReadExt, AsyncWriteExt};
 use tokio::net::{TcpListener, TcpStream, UdpSocket};
 
@@ -84,7 +85,12 @@ async fn tunnel(http: u16, origin: u16) -> Option<TcpStream> {
 }
 
 /// play one timed scenario; returns the offset (ms) at which the client saw the tunnel close, or None if still open at `watch`
-async fn scenario(http: u16, events: Vec<(bool, u64)>, watch: u64) -> Option<Option<u64>> {
+/// Some((close time, lower bound, upper bound of the moment the last data byte was handed to the kernel)), all in
+/// ms on the scenario's own clock (started when the tunnel is established)
+async fn scenario(http: u16, events: Vec<(bool, u64)>, watch: u64) -> Option<(Option<u64>, u64, u64)> {
+    let sent: Arc<std::sync::Mutex<(u64, u64)>> = Arc::new(std::sync::Mutex::new((0, 0)));
+    let epoch: Arc<std::sync::Mutex<Option<std::time::Instant>>> = Arc::new(std::sync::Mutex::new(None));
+    let (sent_o, epoch_o) = (sent.clone(), epoch.clone());
     let ol = TcpListener::bind("127.0.0.1:0").await.ok()?;
     let oport = ol.local_addr().ok()?.port();
     let sev: Vec<u64> = events.iter().filter(|e| !e.0).map(|e| e.1).collect();
@@ -96,9 +102,14 @@ async fn scenario(http: u16, events: Vec<(bool, u64)>, watch: u64) -> Option<Opt
             if at > el {
                 tokio::time::sleep(std::time::Duration::from_millis(at - el)).await;
             }
+            let now = || epoch_o.lock().unwrap().map(|e| e.elapsed().as_millis() as u64).unwrap_or(0);
+            let before = now();
             if o.write_all(b"s").await.is_err() {
                 break;
             }
+            let after = now();
+            let mut g = sent_o.lock().unwrap();
+            *g = (g.0.max(before), g.1.max(after));
         }
         let mut buf = [0u8; 64];
         loop {
@@ -111,6 +122,7 @@ async fn scenario(http: u16, events: Vec<(bool, u64)>, watch: u64) -> Option<Opt
     });
     let mut c = tunnel(http, oport).await?;
     let t0 = std::time::Instant::now();
+    *epoch.lock().unwrap() = Some(t0);
     let cev: Vec<u64> = events.iter().filter(|e| e.0).map(|e| e.1).collect();
     let (mut rd, mut wr) = c.split();
     let writer = async {
@@ -119,9 +131,13 @@ async fn scenario(http: u16, events: Vec<(bool, u64)>, watch: u64) -> Option<Opt
             if at > el {
                 tokio::time::sleep(std::time::Duration::from_millis(at - el)).await;
             }
+            let before = t0.elapsed().as_millis() as u64;
             if wr.write_all(b"c").await.is_err() {
                 break;
             }
+            let after = t0.elapsed().as_millis() as u64;
+            let mut g = sent.lock().unwrap();
+            *g = (g.0.max(before), g.1.max(after));
         }
         std::future::pending::<()>().await
     };
@@ -140,7 +156,8 @@ async fn scenario(http: u16, events: Vec<(bool, u64)>, watch: u64) -> Option<Opt
         _ = tokio::time::sleep(std::time::Duration::from_millis(watch)) => None,
     };
     origin.abort();
-    Some(r)
+    let g = *sent.lock().unwrap();
+    Some((r, g.0, g.1))
 }
 
 fn ev_s(e: &[(bool, u64)]) -> String {
@@ -242,6 +259,20 @@ pub async fn run(out: &mut Out) {
     if let Some(http) = t0_inst {
         scen.push((0, true, http, vec![], 4500));
     }
+    // scheduling jitter of this run: how late a 20 ms sleep wakes up at worst (a loaded machine delays the proxy's
+    // ticker and this harness alike; the "closed late" bound is widened by what was actually observed)
+    let jitter = Arc::new(std::sync::atomic::AtomicU64::new(0));
+    let jm = {
+        let j = jitter.clone();
+        tokio::spawn(async move {
+            loop {
+                let t = std::time::Instant::now();
+                tokio::time::sleep(std::time::Duration::from_millis(20)).await;
+                let over = (t.elapsed().as_millis() as u64).saturating_sub(20);
+                j.fetch_max(over, std::sync::atomic::Ordering::Relaxed);
+            }
+        })
+    };
     // all scenarios run concurrently (each is its own tunnel)
     let mut hs = vec![];
     for (t, splice, http, ev, watch) in scen.into_iter() {
@@ -279,6 +310,8 @@ pub async fn run(out: &mut Out) {
     for (t, splice, ev, h) in hs {
         let r = h.await.ok().flatten();
         let case = format!("I {} {} {}", t, splice as u8, ev_s(&ev));
+        let (lo, hi) = r.map(|x| (x.1, x.2)).unwrap_or((0, 0));
+        let r = r.map(|x| x.0);
         let imp = match r {
             None => "no-tunnel".to_string(),
             Some(None) => "open".to_string(),
@@ -287,15 +320,18 @@ pub async fn run(out: &mut Out) {
         out.case(&case, &imp);
         out.stat("timed_scenario");
         // oracle: closed within (T, T + 1 s ticker granularity + 0.3 s scheduling slack] of the last data, never while data is more recent than T
-        let last = ev.iter().map(|e| e.1).max().unwrap_or(0);
+        // (`lo`/`hi`: the last byte was handed to the kernel between these two instants on the scenario's clock, so the
+        // proxy cannot have seen it before `lo` and has seen it, scheduling permitting, shortly after `hi`)
+        let _nominal = ev.iter().map(|e| e.1).max().unwrap_or(0);
+        let slack = 1300 + 4 * jitter.load(std::sync::atomic::Ordering::Relaxed);
         match r {
             Some(Some(ms)) => {
                 if t == 0 {
                     out.oracle_fail("closed-although-disabled", &format!("{}: closed after {} ms", case, ms));
-                } else if ms < last + t * 1000 {
-                    out.oracle_fail("closed-early", &format!("{}: closed {} ms after the tunnel was established, last data at {} ms, period {} s", case, ms, last, t));
-                } else if ms > last + t * 1000 + 1300 {
-                    out.oracle_fail("closed-late", &format!("{}: closed {} ms after the tunnel was established, last data at {} ms, period {} s", case, ms, last, t));
+                } else if ms < lo + t * 1000 {
+                    out.oracle_fail("closed-early", &format!("{}: closed {} ms after the tunnel was established, last data not before {} ms, period {} s", case, ms, lo, t));
+                } else if ms > hi + t * 1000 + slack {
+                    out.oracle_fail("closed-late", &format!("{}: closed {} ms after the tunnel was established, last data by {} ms, period {} s, allowed slack {} ms", case, ms, hi, t, slack));
                 }
             }
             Some(None) => {
@@ -306,6 +342,7 @@ pub async fn run(out: &mut Out) {
             None => out.oracle_fail("no-tunnel", &case),
         }
     }
+    jm.abort();
     for (splice, h) in hc {
         let r = h.await.ok().flatten();
         let imp = match &r {
